@@ -47,7 +47,7 @@ def decIdCalls : List String → Option (List CallX)
 
 def encIdResult (walk : Tree → List String) : ResultX → String
   | .tree _ => "TREE"
-  | .trees (.error e) => encErr e
+  | .trees (.error _) => "ERR"   -- that the reader gave up, not the kind of exception (compared by C01 / C03)
   | .trees (.ok l) =>
     if l.isEmpty then "EMPTY" else "|".intercalate (l.map fun (sid, t) => s!"{sid}:" ++ ",".intercalate (walk t))
 
